@@ -276,6 +276,8 @@ class TypedNode(Node):
                 # Every node is inserted at the same index, so add the last one first.
                 # (With `before=<node>` each node lands directly before that node, i.e.
                 # behind the previous one.)
+                # An index behind the last child means 'append' (as in `list.insert`)
+                before = min(before, len(self._children or ()))
                 topnodes.reverse()
             for n in topnodes:
                 self.add_child(n, kind=n.kind, before=before, deep=deep)
@@ -323,7 +325,7 @@ class TypedNode(Node):
 
         children = self._children
         if children is None:
-            assert before in (None, True, int, False)
+            # (an index behind the last child means 'append', as in `list.insert`)
             self._children = [node]
         elif before is True:  # prepend
             children.insert(0, node)
